@@ -64,8 +64,13 @@ struct worker {
 	void operator()() const
 	{
 		vt::rng R(seed);
+		// VERIF_ONEWRITER=1: "every operation completes" with writers that stop early - thread 0 issues mutating operations
+		// only during the first 5% of its run, afterwards (and in all other threads) only fetch / stats are issued: readers
+		// that had to wait behind the last writer must all be let through although no later writer comes by
+		static bool onewriter = getenv("VERIF_ONEWRITER")!=0;
 		for(int n=0;n<nops;n++) {
 			unsigned c=R(100);
+			if(onewriter && !(id==0 && n<nops/20+2)) c = R(10)==0 ? 97 : 35+R(45);
 			std::string k=nm(1+R(names));
 			if(c<35) {
 				std::set<std::string> ts; int cnt=R(3); for(int i=0;i<cnt;i++) ts.insert(nm(1+R(names)));
